@@ -8,6 +8,7 @@ import (
 	"os"
 	"sort"
 	"strings"
+	"time"
 )
 
 // engineError aborts the whole run: the engine met something it does not
@@ -71,51 +72,57 @@ type obsRec struct {
 }
 
 type Explorer struct {
-	S          *Solver
-	prefix     []Decision
-	trace      []Decision
-	pc         []*Term
-	flushed    int
-	work       [][]Decision
-	nondet     []NondetRec
-	nondetSeq  int
-	obs        []obsRec
-	viol       []Violation
-	reached    map[string]bool
-	steps      int
-	depth      int
-	MaxSteps   int
-	MaxDepth   int
-	MaxPaths   int
-	asserts    int // assertion obligations discharged on this path
-	Params     map[string]string
-	interp     *interpreter
+	S            *Solver
+	prefix       []Decision
+	trace        []Decision
+	pc           []*Term
+	flushed      int
+	work         [][]Decision
+	nondet       []NondetRec
+	nondetSeq    int
+	obs          []obsRec
+	viol         []Violation
+	reached      map[string]bool
+	steps        int
+	depth        int
+	MaxSteps     int
+	MaxDepth     int
+	MaxPaths     int
+	asserts      int // assertion obligations discharged on this path
+	Params       map[string]string
+	interp       *interpreter
 	pcInfeasible bool
 
 	// totals across paths
-	TotalPaths      int
-	TotalDecisions  int
-	TotalForced     int
-	TotalAsserts    int
-	TotalPanicsObl  int
-	Unknowns        int
-	BudgetPaths     int
-	FnsTouched      map[string]int
-	pcDec           []int   // number of decisions taken when pc[i] was added
-	prevPC          []*Term // path condition of the previous path (for prefix sharing in the solver)
-	prevPCDec       []int
-	shared          int // leading pc terms already asserted in the solver from the previous path
-	dom             map[string]bitset
-	entangled       map[string]bool
-	ByteDecided     int
-	Shard, Shards   int
-	ShardDepth      int
-	TrivialAsserts  int
-	noShare         bool
-	NeedModel       func(symClass string) bool
-	WantPC          bool
-	MapOrders       bool
-	StoreMon        *storeMonitor
+	TotalPaths     int
+	TotalDecisions int
+	TotalForced    int
+	TotalAsserts   int
+	TotalPanicsObl int
+	Unknowns       int
+	BudgetPaths    int
+	FnsTouched     map[string]int
+	pcDec          []int   // number of decisions taken when pc[i] was added
+	prevPC         []*Term // path condition of the previous path (for prefix sharing in the solver)
+	prevPCDec      []int
+	shared         int // leading pc terms already asserted in the solver from the previous path
+	dom            map[string]bitset
+	entangled      map[string]bool
+	ByteDecided    int
+	Shard, Shards  int
+	ShardDepth     int
+	TrivialAsserts int
+	noShare        bool
+	RootPrefix     []Decision
+	Shed           func([][]Decision)
+	ShedEvery      time.Duration
+	logical        int
+	shardHash      uint32
+	shardDone      bool
+	NeedModel      func(symClass string) bool
+	WantPC         bool
+	MapOrders      bool
+	StoreMon       *storeMonitor
 }
 
 func NewExplorer(s *Solver) *Explorer {
@@ -150,6 +157,7 @@ func (e *Explorer) beginPath(prefix []Decision) {
 	e.depth = 0
 	e.asserts = 0
 	e.pcInfeasible = false
+	e.logical, e.shardHash, e.shardDone = 0, 2166136261, false
 	e.dom = map[string]bitset{}
 	e.entangled = map[string]bool{}
 	if e.S != nil {
@@ -207,21 +215,34 @@ func (e *Explorer) check(extra ...*Term) SatResult {
 	return r
 }
 
-// shardCheck prunes paths that belong to another shard once the trace
-// reaches ShardDepth decisions.
+// shardCheck prunes paths that belong to another shard once the path has
+// taken ShardDepth logical decisions. The key ignores "value rejected"
+// entries of Concretize, whose order depends on the solver's model choice.
 func (e *Explorer) shardCheck() {
-	if e.Shards <= 1 || len(e.trace) != e.ShardDepth {
+	if e.Shards <= 1 || e.shardDone {
 		return
 	}
-	h := uint32(2166136261)
-	for _, d := range e.trace {
-		x := uint32(d.Val)*2 + 1
-		if d.Taken {
-			x++
-		}
-		h ^= x
-		h *= 16777619
+	last := e.trace[len(e.trace)-1]
+	if last.Kind == 'c' && !last.Taken {
+		return
 	}
+	e.logical++
+	x := uint32(last.Val)*2 + 1
+	if last.Taken {
+		x++
+	}
+	e.shardHash ^= x
+	e.shardHash *= 16777619
+	if e.logical < e.ShardDepth {
+		return
+	}
+	e.shardDone = true
+	h := e.shardHash
+	h ^= h >> 16
+	h *= 0x85ebca6b
+	h ^= h >> 13
+	h *= 0xc2b2ae35
+	h ^= h >> 16
 	if int(h%uint32(e.Shards)) != e.Shard {
 		panic(pathEnd{"shard"})
 	}
@@ -514,8 +535,18 @@ func (e *Explorer) step() {
 
 // RunAll explores all paths of body. body runs one path.
 func (e *Explorer) RunAll(body func(), onPath func(PathResult)) {
-	e.work = [][]Decision{nil}
+	e.work = [][]Decision{e.RootPrefix}
+	lastShed := time.Now().Add(-e.ShedEvery + 300*time.Millisecond)
 	for len(e.work) > 0 {
+		if e.Shed != nil && len(e.work) >= 2 && time.Since(lastShed) > e.ShedEvery {
+			// donate the oldest (shallowest) half of the worklist
+			n := len(e.work) / 2
+			give := make([][]Decision, n)
+			copy(give, e.work[:n])
+			e.work = append(e.work[:0:0], e.work[n:]...)
+			e.Shed(give)
+			lastShed = time.Now()
+		}
 		if e.TotalPaths >= e.MaxPaths {
 			onPath(PathResult{Status: "budget", Reason: fmt.Sprintf("max paths %d reached with %d pending", e.MaxPaths, len(e.work))})
 			e.BudgetPaths++
@@ -582,7 +613,7 @@ func (e *Explorer) runOne(body func()) (res PathResult) {
 		res.Viol = e.viol
 		return
 	}
-	if e.Shards > 1 && len(e.trace) < e.ShardDepth && e.Shard != 0 {
+	if e.Shards > 1 && !e.shardDone && e.Shard != 0 {
 		res.Status = "othershard"
 		return
 	}
